@@ -129,3 +129,52 @@ Theorem C11_refuted_pre_fix_stale_child_lower_level :
     rt_get fm_append r cex_k = Some [100; 58; 97; 58; 98; 58; 99]%N.
 Proof. exact tree_theorem_refuted_pre_fix. Qed.
 Print Assumptions C11_refuted_pre_fix_stale_child_lower_level.
+
+(* FROM ANY STORE, AND ACROSS REOPEN CYCLES (TreeCycles).  The end-to-end theorem does not
+   need the empty store: opened on ANY footer tree f with distinct child names that reads as
+   the reference tree r0 (up to the existence of empty child collections, F10b), after every
+   label sequence the snapshot reads EXACTLY as the reference tree continued from r0 cut down
+   to the children that have a footer ... *)
+From Moss Require Import Tree TreeColl TreeRun TreeCycles TreeCyclesFacts TreeCyclesRun.
+Theorem C11_tree_snapshot_reads_reference_from_any_store :
+  forall (fm : bytes -> value -> bytes -> value) (c : cfg) (f : fnode) (r0 : rtree)
+         (ls : list clabel) (cs : cst),
+    fn_wf f -> fn_reads_mod fm f r0 ->
+    Forall (fun b => tb_good b = true) (cbatches ls) ->
+    crun fm c (cinit_from c f) ls = Some cs ->
+    reads_as fm (t_cur_snapshot (c_t cs)) (rt_run (rt_restrict r0 f) (cbatches ls)) /\
+    rt_sub fm (rt_restrict r0 f) r0 /\ fn_reads_exact fm f (rt_restrict r0 f).
+Proof. exact tree_snapshot_reads_reference_from_any_store. Qed.
+Print Assumptions C11_tree_snapshot_reads_reference_from_any_store.
+
+(* ... and IN THE MIDDLE of incarnation n+1: after any number of open / run / close cycles
+   (closed at any point; an in-flight round that had not begun may complete during Close) the
+   collection reopened on the resulting store and run through ANY further label sequence
+   reads as the reference tree of per-cycle prefixes followed by the batches of the current
+   run (all batches of all cycles when persistence had caught up before each Close) *)
+Theorem C11_tree_reads_reference_across_reopen_cycles :
+  forall (fm : bytes -> value -> bytes -> value) (c : cfg) (f0 : fnode) (r0 : rtree)
+         (cy : list cycle) (sts : list cst) (ff : fnode) (ls : list clabel) (cs : cst),
+    fn_wf f0 -> fn_reads_mod fm f0 r0 -> cycles_good cy ->
+    cycles_run fm c f0 cy = Some (sts, ff) ->
+    Forall2 (fun st (lc : cycle) => close_choice_ok st (snd lc)) sts cy ->
+    Forall (fun b => tb_good b = true) (cbatches ls) ->
+    crun fm c (cinit_from c ff) ls = Some cs ->
+    exists hs,
+      Forall2 is_prefix_of hs cy /\
+      reads_mod fm (t_cur_snapshot (c_t cs)) (rt_run r0 (concat hs ++ cbatches ls)).
+Proof. exact tree_cycles_then_run_reads_reference. Qed.
+Print Assumptions C11_tree_reads_reference_across_reopen_cycles.
+
+Theorem C11_tree_reads_everything_across_caught_up_cycles :
+  forall (fm : bytes -> value -> bytes -> value) (c : cfg) (f0 : fnode) (r0 : rtree)
+         (cy : list cycle) (sts : list cst) (ff : fnode) (ls : list clabel) (cs : cst),
+    fn_wf f0 -> fn_reads_mod fm f0 r0 -> cycles_good cy ->
+    cycles_run fm c f0 cy = Some (sts, ff) ->
+    Forall caught_up sts ->
+    Forall (fun b => tb_good b = true) (cbatches ls) ->
+    crun fm c (cinit_from c ff) ls = Some cs ->
+    reads_mod fm (t_cur_snapshot (c_t cs))
+              (rt_run r0 (concat (cycle_batches cy) ++ cbatches ls)).
+Proof. exact tree_cycles_then_run_reads_everything. Qed.
+Print Assumptions C11_tree_reads_everything_across_caught_up_cycles.
